@@ -247,15 +247,24 @@ Section Correct.
         apply F1; [|exact Hdt]. eapply ext_trans; [apply P2|exact HE].
   Qed.
 
-  (* headline: for every history function, every delayed term of the compiled function is component pos(x) of
-     hist(t_time - tau) — inside the two guards, Impl = Spec *)
-  Theorem dde_refines m md t y :
-    past_terms_printable m = true -> dt_fmt_exact md = true ->
-    impl_eval hist pos par m md t y = Some (spec_eval hist pos par m md t y).
+  (* headline: for EVERY history function, state layout, parameter values and model, every delayed term of the compiled
+     function is component pos(x) of hist(t_time - tau): Impl = Spec, no guard *)
+  Theorem dde_full m md t y : impl_eval hist pos par m md t y = spec_eval hist pos par m md t y.
   Proof.
-    intros G1 G2. unfold impl_eval, compile. rewrite G1.
+    unfold impl_eval, spec_eval, spec_eval_e, compile.
     destruct (comp_model [] m) as [tb cm] eqn:C.
-    destruct (comp_model_ok m [] tb cm C) as (_ & F). f_equal. unfold spec_eval.
+    destruct (comp_model_ok m [] tb cm C) as (_ & F).
+    apply F; [apply ext_refl|]. destruct md; cbn; [reflexivity|]. now apply Qc_eqb_true.
+  Qed.
+
+  (* the code before D38/D39 met the specification only inside two guards *)
+  Theorem before_fix_refines m md t y :
+    past_terms_printable m = true -> dt_fmt_exact md = true ->
+    impl_eval_before_fix hist pos par m md t y = Some (spec_eval_e hist pos par m md t y).
+  Proof.
+    intros G1 G2. unfold impl_eval_before_fix, compile. rewrite G1.
+    destruct (comp_model [] m) as [tb cm] eqn:C.
+    destruct (comp_model_ok m [] tb cm C) as (_ & F). f_equal. unfold spec_eval_e.
     apply F; [apply ext_refl|exact G2].
   Qed.
 
@@ -285,11 +294,18 @@ Proof.
 Qed.
 
 (* ---------- delayed edges under an adaptive solver ---------- *)
-Lemma edge_factor_ok step es e : edge_delay_not_one es = true -> edge_delay_above_step step es = true -> In e es ->
+Lemma edge_factor_ok step es e : edge_delay_above_step step es = true -> In e es ->
   edge_factor_impl step es e = edge_factor_spec e.
 Proof.
+  unfold edge_delay_above_step. rewrite forallb_forall. intros H2 Hin.
+  unfold edge_factor_impl, edge_factor_spec. now rewrite (H2 e Hin).
+Qed.
+
+Lemma edge_factor_before_fix_ok step es e : edge_delay_not_one es = true -> edge_delay_above_step step es = true -> In e es ->
+  edge_factor_before_fix step es e = edge_factor_spec e.
+Proof.
   unfold edge_delay_not_one, edge_delay_above_step. rewrite !forallb_forall. intros H1 H2 Hin.
-  unfold edge_factor_impl, edge_factor_spec. rewrite (H2 e Hin).
+  unfold edge_factor_before_fix, edge_factor_spec. rewrite (H2 e Hin).
   specialize (H1 e Hin). apply negb_true_iff in H1. now rewrite H1.
 Qed.
 
@@ -299,16 +315,16 @@ Proof.
   rewrite (H e (or_introl eq_refl)). apply IH. intros e' He'. apply H. now right.
 Qed.
 
-(* inside the two edge guards every delayed edge becomes past(source, delay) *)
-Theorem edges_refine step es base : edge_delay_not_one es = true -> edge_delay_above_step step es = true ->
+(* every delayed edge becomes past(source, delay) when the largest delay leaving each source variable exceeds step_size *)
+Theorem edges_refine step es base : edge_delay_above_step step es = true ->
   add_edges (edge_factor_impl step es) es base = add_edges edge_factor_spec es base.
-Proof. intros H1 H2. apply add_edges_ext. intros e He. now apply edge_factor_ok. Qed.
+Proof. intros H2. apply add_edges_ext. intros e He. now apply edge_factor_ok. Qed.
 
 (* ---------- the Euler loop with DDEHistory is the method-of-steps recurrence ---------- *)
 Lemma spec_eval_ext h1 h2 pos par m md t y : (forall s, h1 s = h2 s) ->
   spec_eval h1 pos par m md t y = spec_eval h2 pos par m md t y.
 Proof.
-  intros H. unfold spec_eval. apply map_ext. intros r. unfold rhs_val. f_equal. apply map_ext. intros cf.
+  intros H. unfold spec_eval, spec_eval_e. apply map_ext. intros r. unfold rhs_val. f_equal. apply map_ext. intros cf.
   unfold term_val. f_equal. f_equal. apply map_ext. intros f. destruct f; cbn [fval]; try reflexivity.
   unfold past_val. now rewrite H.
 Qed.
@@ -345,7 +361,6 @@ Section RunProof.
   Variable m : model.
   Variable dt : Qc.
   Variable junk : nat -> list row.
-  Hypothesis Hg : past_terms_printable m = true.
   Hypothesis Hdt : 0 < dt.
 
   (* what the loop maintains: the concrete buffer represents exactly the records of the recurrence *)
@@ -354,16 +369,15 @@ Section RunProof.
     ts h <> [] /\ last (ts h) 0 = qn i * dt.
 
   Lemma euler_refines : forall n i y h recs, RInv h recs i ->
-    euler_impl pos par m dt dt junk n i y h = Some (euler_spec pos par m dt n i y recs).
+    euler_impl pos par m dt junk n i y h = Some (euler_spec pos par m dt n i y recs).
   Proof.
     induction n as [|n IH]; intros i y h recs (HI & Hgr & Hrec & Hinc & Hne & Hlast); [reflexivity|].
     cbn [euler_impl euler_spec].
-    rewrite (dde_refines (query h) pos par m (Fixed dt dt) (qn i) y Hg)
-      by (cbn; now apply Qc_eqb_true).
-    assert (E : spec_eval (query h) pos par m (Fixed dt dt) (qn i) y =
-                spec_eval (interp recs) pos par m (Fixed dt dt) (qn i) y).
+    rewrite (dde_full (query h) pos par m (Fixed dt) (qn i) y).
+    assert (E : spec_eval (query h) pos par m (Fixed dt) (qn i) y =
+                spec_eval (interp recs) pos par m (Fixed dt) (qn i) y).
     { apply spec_eval_ext. intros s. rewrite <- Hrec. now apply query_is_interp. }
-    rewrite E. set (f := spec_eval (interp recs) pos par m (Fixed dt dt) (qn i) y).
+    rewrite E. set (f := spec_eval (interp recs) pos par m (Fixed dt) (qn i) y).
     set (y' := vadd y (vscale dt f)). set (t' := qn (S i) * dt).
     destruct (update h (junk i) t' y') as [h'|] eqn:U.
     - destruct (update_inv h (junk i) t' y' h' HI U) as (HI' & Hr' & Ht' & Hg' & _).
@@ -378,7 +392,7 @@ Section RunProof.
   Qed.
 
   Theorem run_refines cap n y0 :
-    run_impl pos par m dt dt junk cap n y0 = Some (run_spec pos par m dt n y0).
+    run_impl pos par m dt junk cap n y0 = Some (run_spec pos par m dt n y0).
   Proof.
     unfold run_impl, run_spec. apply euler_refines.
     destruct (init_inv y0 0 cap true (junk 0)) as (HI & Hrec & _).
@@ -396,7 +410,7 @@ Fixpoint spec_recs (pos : nat -> nat) (par : nat -> Qc) (m : model) (dt : Qc) (n
   match n with
   | O => recs
   | S n' =>
-      let f := spec_eval (interp recs) pos par m (Fixed dt dt) (qn i) y in
+      let f := spec_eval (interp recs) pos par m (Fixed dt) (qn i) y in
       let y' := vadd y (vscale dt f) in
       spec_recs pos par m dt n' (S i) y' (recs ++ [(qn (S i) * dt, y')])
   end.
@@ -404,8 +418,8 @@ Fixpoint spec_recs (pos : nat -> nat) (par : nat -> Qc) (m : model) (dt : Qc) (n
 Lemma spec_recs_prefix pos par m dt : forall n i y recs, exists s, spec_recs pos par m dt n i y recs = recs ++ s.
 Proof.
   induction n as [|n IH]; intros i y recs; cbn [spec_recs]; [exists []; now rewrite app_nil_r|].
-  destruct (IH (S i) (vadd y (vscale dt (spec_eval (interp recs) pos par m (Fixed dt dt) (qn i) y)))
-              (recs ++ [(qn (S i) * dt, vadd y (vscale dt (spec_eval (interp recs) pos par m (Fixed dt dt) (qn i) y)))])) as [s Hs].
+  destruct (IH (S i) (vadd y (vscale dt (spec_eval (interp recs) pos par m (Fixed dt) (qn i) y)))
+              (recs ++ [(qn (S i) * dt, vadd y (vscale dt (spec_eval (interp recs) pos par m (Fixed dt) (qn i) y)))])) as [s Hs].
   rewrite Hs, <- app_assoc. eauto.
 Qed.
 
